@@ -89,6 +89,8 @@ OFFS = {"kind": "sized_by", "fn": "vibrato::dictionary::unknown::UnkHandler::fro
         "local": "offsets", "count": "num_categories", "plus": 1,
         "sink": {"adt": "UnkHandler", "field": "offsets"}}
 CATE_OFFS = {"kind": "all", "of": [CATE, OFFS]}
+ENDSUM = {"kind": "arg_is_sum", "fn": "vibrato::trainer::Trainer::build_lattice",
+          "callee": "UnkHandler::compatible_unk_index", "arg": 3, "of": 2}
 UNKLEN = {"kind": "len_le", "fn": "vibrato::dictionary::unknown::UnkHandler::from_reader",
           "local": "entries", "le": 65536, "sink": {"adt": "UnkHandler", "field": "entries"}}
 LATTICE = {"kind": "rule", "rule": "LATTICE"}
@@ -157,7 +159,7 @@ TOK_RULES = [
 # Input assumption, stated in the evidence: the corpus is tokenizer output, so every token has a
 # non-empty surface and the tokens concatenate to the sentence.
 TRAIN_RULES = [
- ("compatible_unk_index", r"Sub\(arg4,arg3\)", "end_char - start_char with end = start + surface length (caller build_lattice)", None),
+ ("compatible_unk_index", r"Sub\(arg4,arg3\)", "end_char - start_char with end = start + surface length (caller build_lattice)", ENDSUM),
  ("compatible_unk_index", r"index\(arg1\.offsets", "base_id < number of categories (same tables as scan_entries; category ids bounded below 18)", CATE_OFFS),
  ("compatible_unk_index", r"Add\(from_u32\(base_id", "category id + 1 <= 18", None),
  ("compatible_unk_index", r"index\(arg1\.entries,next", "loop over offsets[c]..offsets[c+1] <= entries.len()", None),
@@ -172,7 +174,7 @@ TRAIN_RULES = [
  ("Trainer::build_lattice", r"Add\(next\(_\),next\(_\)\.end_char\)", "start + match length <= sentence length", None),
  ("Trainer::build_lattice", r"bounds\(next\(_\)\)|bounds\(arg1\.#1\)", "lattice.nodes()[pos]: pos < input_len + 1 = number of lattice nodes", None),
  ("Trainer::build_lattice::{closure#1}", r"Add\(arg1\.#4,arg1\.#5\)", "pos + len of the current token", None),
- ("Trainer::build_lattice::{closure#1}::{closure#1}", r"index\(arg1\.#0,from_u32", "label_id_map_unk has one entry per unk.def entry (Trainer::new); unk_index.word_id comes from compatible_unk_index", None),
+ ("Trainer::build_lattice::{closure#1}::{closure#1}", r"index\(arg1(\.#0|\.label_id_map_unk),from_u32", "label_id_map_unk has one entry per unk.def entry (Trainer::new); unk_index.word_id comes from compatible_unk_index", None),
  ("Trainer::build_lattice::{closure#2}", r"unwrap\(try_from\(len|Add\(", "label ids: number of lexicon words + unknown entries + 1 fits u32 (checked when the provider was filled in Trainer::new)", None),
 ]
 
